@@ -97,7 +97,7 @@ func c17(c *Ctx) {
 	okRoute, why := false, "channel = "+chTerm
 	var keyVal ssa.Value
 	if ex, ok := theSend.Chan.(*ssa.Extract); ok && ex.Index == 0 {
-		if lk, ok := ex.Tuple.(*ssa.Lookup); ok && lk.CommaOk && lk.X == fn.Params[4] {
+		if lk, ok := ex.Tuple.(*ssa.Lookup); ok && lk.CommaOk && (lk.X == fn.Params[4] || viaStructField(lk.X) == ssa.Value(fn.Params[4])) {
 			keyVal = lk.Index
 			fs := facts.At(theSend.Instr, nil)
 			if facts.HasAtom(fs, facts.Term(lk)+"#1") {
@@ -262,4 +262,31 @@ func c17allSends(c *Ctx, p *load.Program) {
 			fmt.Sprintf("send in %s can block (in a select: %v): a full queue stalls this goroutine", shortFn(sd.Fn), sd.InSelect))
 	}
 	R.Floor("C17.nonblocking.all-sends", n, 2)
+}
+
+// viaStructField: v is a load of a field of a local struct literal that was set exactly once;
+// returns the value stored there (the map kept in a small state struct instead of a parameter).
+func viaStructField(v ssa.Value) ssa.Value {
+	ld, ok := strip(v).(*ssa.UnOp)
+	if !ok || ld.Op != token.MUL {
+		return nil
+	}
+	fa, ok := ld.X.(*ssa.FieldAddr)
+	if !ok {
+		return nil
+	}
+	base := fa.X
+	if al, isAl := resolveSpill(base).(*ssa.Alloc); isAl {
+		base = al
+	}
+	al, ok := base.(*ssa.Alloc)
+	if !ok {
+		return nil
+	}
+	vals, cnt := allocStores(al)
+	name := fieldOfAddr(fa).Name()
+	if cnt[name] != 1 {
+		return nil
+	}
+	return strip(vals[name])
 }
